@@ -41,6 +41,9 @@ def main():
     if "--round7" in args:  # seventh round (one change per property, narrow input classes / multi-step histories): /tmp/r7-<ID>/_out, filed as <ID>-11
         args.remove("--round7")
         prefix, offset = "/tmp/r7-", 10
+    if "--round8" in args:  # eighth round (as the seventh, but asked to stay away from the obvious corners): /tmp/r8-<ID>/_out, filed as <ID>-12
+        args.remove("--round8")
+        prefix, offset = "/tmp/r8-", 11
     round3 = "--round3" in args  # third round, organised by code area: /tmp/seed3-<S>/_out, filed as <S>-<n>; the property comes from metaN.json
     if round3:
         args.remove("--round3")
@@ -97,7 +100,7 @@ def main():
                 meta.update(
                     {
                         "property": prop,
-                        "origin": "written by an independent sub-agent that saw only the property text and a scratch worktree" + (" (second round: it was also told the one-line summaries of the first-round changes for this property, to avoid repeating them)" if offset == 2 else "") + (" (fourth round: asked for changes needing a conjunction of conditions that a minute of random generation has a real chance of missing; told all earlier ideas for this property)" if offset == 4 else "") + (" (fifth round: asked for a realistic pull request - optimisation, refactoring, feature or modernisation of 15-80 lines - whose accidental side effect breaks the property; told all earlier ideas for this property)" if offset == 6 else "") + (" (sixth round: asked for a regression that is invisible in the test suite's environment - UTC, C locale, one store per process, fresh directories - and shows only in another realistic environment or process configuration; told all earlier ideas for this property)" if offset == 8 else "") + (" (seventh round: one change per property, asked for something that needs a multi-step history, an unusual but legal input, a fault at a particular point or two cooperating sites; told nothing about earlier ideas)" if offset == 10 else "") + (" (third round: the agent was given a code area and all twenty property statements, and the summaries of earlier changes in that area to avoid)" if round3 else ""),
+                        "origin": "written by an independent sub-agent that saw only the property text and a scratch worktree" + (" (second round: it was also told the one-line summaries of the first-round changes for this property, to avoid repeating them)" if offset == 2 else "") + (" (fourth round: asked for changes needing a conjunction of conditions that a minute of random generation has a real chance of missing; told all earlier ideas for this property)" if offset == 4 else "") + (" (fifth round: asked for a realistic pull request - optimisation, refactoring, feature or modernisation of 15-80 lines - whose accidental side effect breaks the property; told all earlier ideas for this property)" if offset == 6 else "") + (" (sixth round: asked for a regression that is invisible in the test suite's environment - UTC, C locale, one store per process, fresh directories - and shows only in another realistic environment or process configuration; told all earlier ideas for this property)" if offset == 8 else "") + (" (seventh round: one change per property, asked for something that needs a multi-step history, an unusual but legal input, a fault at a particular point or two cooperating sites; told nothing about earlier ideas)" if offset == 10 else "") + (" (eighth round: as the seventh, but told that the obvious ideas are assumed to be caught and asked for a less-visited corner - the peewee or sqlite specifics, the Datastore/Bucket wrapper layer, rarely used arguments, the interplay of two modules)" if offset == 11 else "") + (" (third round: the agent was given a code area and all twenty property statements, and the summaries of earlier changes in that area to avoid)" if round3 else ""),
                         "confirmed": {
                             "demo_on_clean_tree": f"exit {rc0}: {out0.strip()[-200:]}",
                             "test_suite_with_patch": outt.strip(),
